@@ -174,50 +174,101 @@ theorem cast_len (t : Ty) (c r : Col) (h : Col.cast t c = .ok r) : r.len = c.len
       rename_i c ht
       simp [Col.len, tryUnaryOp_length _ _ _ _ ht]
 
-theorem arith_len (op : ArithOp) (ca cb c : Col) (h : Col.arith op ca cb = .ok c) :
-    c.len = ca.len ∧ ca.len = cb.len := by
-  cases ca <;> cases cb <;> simp [Col.arith] at h
-  rename_i wa a wb b
-  cases hk : arithK op (wa.max wb) a b <;> simp [hk, KOut.map] at h
-  subst h
+/-- Inversion of `arith!`: the integer arm, or an operand of type NULL. -/
+theorem arith_inv (op : ArithOp) (ca cb c : Col) (h : Col.arith op ca cb = .ok c) :
+    (∃ wa a wb b r, ca = .int wa a ∧ cb = .int wb b ∧ arithK op (wa.max wb) a b = .ok r ∧
+        c = .int (wa.max wb) r) ∨
+    (∃ k, ca = .null k ∧ c = .null k) ∨ (∃ k, cb = .null k ∧ c = .null k) := by
+  unfold Col.arith at h
+  split at h
+  · cases h
+  · cases ca with
+    | int wa a =>
+      cases cb with
+      | int wb b =>
+        simp only at h
+        cases hk : arithK op (wa.max wb) a b <;> simp [hk, KOut.map] at h
+        subst h
+        exact Or.inl ⟨wa, a, wb, b, _, rfl, rfl, hk, rfl⟩
+      | null k => simp at h; subst h; exact Or.inr (Or.inr ⟨k, rfl, rfl⟩)
+      | bool y => simp at h
+      | str y => simp at h
+    | null k => cases cb <;> simp at h <;> (subst h; exact Or.inr (Or.inl ⟨k, rfl, rfl⟩))
+    | bool x =>
+      cases cb <;> simp at h
+      subst h; exact Or.inr (Or.inr ⟨_, rfl, rfl⟩)
+    | str x =>
+      cases cb <;> simp at h
+      subst h; exact Or.inr (Or.inr ⟨_, rfl, rfl⟩)
+
+theorem arithK_len (op : ArithOp) (w : IW) (a b r : Arr Int) (hk : arithK op w a b = .ok r) :
+    r.length = a.length ∧ a.length = b.length := by
   unfold arithK at hk
   obtain ⟨h1, h2⟩ := tryBinaryOp_length _ _ _ _ _ hk
-  simp only [Col.len]
   cases hd : op.safens <;> simp [hd, safenDividend] at h2 <;> exact ⟨h1, h2⟩
+
+theorem arith_len (op : ArithOp) (ca cb c : Col) (h : Col.arith op ca cb = .ok c) :
+    c.len = ca.len ∨ c.len = cb.len := by
+  rcases arith_inv op ca cb c h with ⟨wa, a, wb, b, r, rfl, rfl, hk, rfl⟩ | ⟨k, rfl, rfl⟩ | ⟨k, rfl, rfl⟩
+  · exact Or.inl (arithK_len op _ a b r hk).1
+  · exact Or.inl rfl
+  · exact Or.inr rfl
 
 theorem cmpK_len {α} (f : α → α → Bool) (a b : Arr α) (c : Arr Bool) (h : cmpK f a b = .ok c) :
     c.length = a.length ∧ a.length = b.length := by
   rw [cmpK_eq] at h
   exact zipSlotM_length _ a b c h
 
-theorem cmp_len (op : CmpOp) (ca cb c : Col) (h : Col.cmp op ca cb = .ok c) :
-    c.len = ca.len ∧ ca.len = cb.len := by
-  cases ca <;> cases cb <;> simp [Col.cmp] at h
+theorem cmp_len (op : CmpOp) (ca cb c : Col) (h : Col.cmp op ca cb = .ok c) : c.len = ca.len := by
+  cases ca <;> cases cb <;> simp only [Col.cmp] at h <;>
+    first
+    | (cases h; simp [Col.len])
+    | cases h
+    | skip
   · rename_i a b
     cases hk : cmpK (fun x y => op.onOrd (boolOrd x y)) a b <;> simp [hk, KOut.map] at h
-    subst h; exact cmpK_len _ a b _ hk
+    subst h; exact (cmpK_len _ a b _ hk).1
   · rename_i wa a wb b
     cases hk : cmpK op.onInt a b <;> simp [hk, KOut.map] at h
-    subst h; exact cmpK_len _ a b _ hk
+    subst h; exact (cmpK_len _ a b _ hk).1
   · rename_i a b
     cases hk : cmpK (fun x y => op.onOrd (strOrd x y)) a b <;> simp [hk, KOut.map] at h
-    subst h; exact cmpK_len _ a b _ hk
+    subst h; exact (cmpK_len _ a b _ hk).1
 
-theorem and_len (ca cb c : Col) (h : Col.and ca cb = .ok c) : c.len = ca.len ∧ ca.len = cb.len := by
-  cases ca <;> cases cb <;> simp [Col.and] at h
+theorem asBoolArr_len (c : Col) (a : Arr Bool) (h : c.asBoolArr = some a) : a.length = c.len := by
+  cases c <;> simp [Col.asBoolArr] at h <;> subst h <;> simp [Col.len]
+
+theorem and_inv (ca cb c : Col) (h : Col.and ca cb = .ok c) :
+    ∃ a b r, ca.asBoolArr = some a ∧ cb.asBoolArr = some b ∧ andK a b = .ok r ∧ c = .bool r := by
+  unfold Col.and at h
+  cases ha : ca.asBoolArr <;> cases hb : cb.asBoolArr <;> simp [ha, hb] at h
   rename_i a b
   cases hk : andK a b <;> simp [hk, KOut.map] at h
   subst h
-  rw [andK_eq] at hk
-  exact zipSlotM_length _ a b _ hk
+  exact ⟨a, b, _, rfl, rfl, hk, rfl⟩
 
-theorem or_len (ca cb c : Col) (h : Col.or ca cb = .ok c) : c.len = ca.len ∧ ca.len = cb.len := by
-  cases ca <;> cases cb <;> simp [Col.or] at h
+theorem or_inv (ca cb c : Col) (h : Col.or ca cb = .ok c) :
+    ∃ a b r, ca.asBoolArr = some a ∧ cb.asBoolArr = some b ∧ orK a b = .ok r ∧ c = .bool r := by
+  unfold Col.or at h
+  cases ha : ca.asBoolArr <;> cases hb : cb.asBoolArr <;> simp [ha, hb] at h
   rename_i a b
   cases hk : orK a b <;> simp [hk, KOut.map] at h
   subst h
+  exact ⟨a, b, _, rfl, rfl, hk, rfl⟩
+
+theorem and_len (ca cb c : Col) (h : Col.and ca cb = .ok c) : c.len = ca.len ∧ ca.len = cb.len := by
+  obtain ⟨a, b, r, ha, hb, hk, rfl⟩ := and_inv ca cb c h
+  rw [andK_eq] at hk
+  obtain ⟨h1, h2⟩ := zipSlotM_length _ a b _ hk
+  rw [← asBoolArr_len ca a ha, ← asBoolArr_len cb b hb]
+  exact ⟨h1, h2⟩
+
+theorem or_len (ca cb c : Col) (h : Col.or ca cb = .ok c) : c.len = ca.len ∧ ca.len = cb.len := by
+  obtain ⟨a, b, r, ha, hb, hk, rfl⟩ := or_inv ca cb c h
   rw [orK_eq] at hk
-  exact zipSlotM_length _ a b _ hk
+  obtain ⟨h1, h2⟩ := zipSlotM_length _ a b _ hk
+  rw [← asBoolArr_len ca a ha, ← asBoolArr_len cb b hb]
+  exact ⟨h1, h2⟩
 
 theorem not_len (ca c : Col) (h : Col.not ca = .ok c) : c.len = ca.len := by
   cases ca <;> simp [Col.not] at h
@@ -229,7 +280,7 @@ theorem neg_len (ca c : Col) (h : Col.neg ca = .ok c) : c.len = ca.len := by
     simp only [Col.neg] at h
     cases hk : tryUnaryOp 0 (negW w) x <;> simp only [hk] at h <;> cases h
     exact tryUnaryOp_length _ _ _ _ hk
-  | null k => simp [Col.neg] at h
+  | null k => simp [Col.neg] at h; subst h; rfl
   | bool x => simp [Col.neg] at h
   | str x => simp [Col.neg] at h
 
@@ -241,7 +292,8 @@ theorem select_inv (cc ct ce c : Col) (h : Col.select cc ct ce = .ok c) :
     ∃ s, cc = .bool s ∧
       ((∃ w x y r, ct = .int w x ∧ ce = .int w y ∧ selectOp s x y = .ok r ∧ c = .int w r) ∨
        (∃ x y r, ct = .bool x ∧ ce = .bool y ∧ selectOp s x y = .ok r ∧ c = .bool (clearNull r)) ∨
-       (∃ x y r, ct = .str x ∧ ce = .str y ∧ selectOp s x y = .ok r ∧ c = .str r)) := by
+       (∃ x y r, ct = .str x ∧ ce = .str y ∧ selectOp s x y = .ok r ∧ c = .str r) ∨
+       (∃ k k', ct = .null k ∧ ce = .null k' ∧ c = .null k)) := by
   cases cc with
   | bool s =>
     refine ⟨s, rfl, ?_⟩
@@ -274,25 +326,28 @@ theorem select_inv (cc ct ce c : Col) (h : Col.select cc ct ce = .ok c) :
       | str y =>
         simp only [Col.select] at h
         cases hk : selectOp s x y <;> simp only [hk] at h <;> cases h
-        exact Or.inr (Or.inr ⟨x, y, _, rfl, rfl, hk, rfl⟩)
+        exact Or.inr (Or.inr (Or.inl ⟨x, y, _, rfl, rfl, hk, rfl⟩))
       | null k => simp [Col.select] at h
       | int w y => simp [Col.select] at h
       | bool y => simp [Col.select] at h
-    | null k => cases ce <;> simp [Col.select] at h
+    | null k =>
+      cases ce <;> simp [Col.select] at h
+      subst h; exact Or.inr (Or.inr (Or.inr ⟨_, _, rfl, rfl, rfl⟩))
   | null k => cases ct <;> cases ce <;> simp [Col.select] at h
   | int w s => cases ct <;> cases ce <;> simp [Col.select] at h
   | str s => cases ct <;> cases ce <;> simp [Col.select] at h
 
-theorem select_len (cc ct ce c : Col) (h : Col.select cc ct ce = .ok c) :
-    c.len = ct.len ∧ ct.len = ce.len ∧ cc.len = ct.len := by
+theorem select_len (cc ct ce c : Col) (h : Col.select cc ct ce = .ok c) : c.len = ct.len := by
   obtain ⟨s, hs, h2⟩ := select_inv cc ct ce c h
   clear h
   subst hs
-  rcases h2 with ⟨w, x, y, r, rfl, rfl, hk, rfl⟩ | ⟨x, y, r, rfl, rfl, hk, rfl⟩ | ⟨x, y, r, rfl, rfl, hk, rfl⟩
-  · exact selectOp_length s x y r hk
-  · have := selectOp_length s x y r hk
+  rcases h2 with ⟨w, x, y, r, rfl, rfl, hk, rfl⟩ | ⟨x, y, r, rfl, rfl, hk, rfl⟩ |
+    ⟨x, y, r, rfl, rfl, hk, rfl⟩ | ⟨k, k', rfl, rfl, rfl⟩
+  · exact (selectOp_length s x y r hk).1
+  · have := (selectOp_length s x y r hk).1
     simpa [Col.len, clearNull] using this
-  · exact selectOp_length s x y r hk
+  · exact (selectOp_length s x y r hk).1
+  · rfl
 
 theorem concat_len (ca cb c : Col) (h : Col.concat ca cb = .ok c) :
     c.len = ca.len ∧ ca.len = cb.len := by
@@ -353,7 +408,11 @@ theorem evalK_len (chunk : List Col) (n : Nat) (hwf : ChunkWF chunk n) (e : KExp
       rcases hb : evalK chunk n b with ⟨rb, tb⟩
       rw [hb] at h
       cases rb with
-      | ok cb => simp only at h; rw [(arith_len op ca cb c h).1]; exact iha ca (by rw [ha])
+      | ok cb =>
+        simp only at h
+        rcases arith_len op ca cb c h with hl | hl
+        · rw [hl]; exact iha ca (by rw [ha])
+        · rw [hl]; exact ihb cb (by rw [hb])
       | err => simp at h
       | panic => simp at h
     | err => simp at h
@@ -368,7 +427,7 @@ theorem evalK_len (chunk : List Col) (n : Nat) (hwf : ChunkWF chunk n) (e : KExp
       rcases hb : evalK chunk n b with ⟨rb, tb⟩
       rw [hb] at h
       cases rb with
-      | ok cb => simp only at h; rw [(cmp_len op ca cb c h).1]; exact iha ca (by rw [ha])
+      | ok cb => simp only at h; rw [cmp_len op ca cb c h]; exact iha ca (by rw [ha])
       | err => simp at h
       | panic => simp at h
     | err => simp at h
@@ -444,7 +503,7 @@ theorem evalK_len (chunk : List Col) (n : Nat) (hwf : ChunkWF chunk n) (e : KExp
         rcases he : evalK chunk n e with ⟨re, te⟩
         rw [he] at h
         cases re with
-        | ok ce => simp only at h; rw [(select_len cc ct ce c h).1]; exact iht ct (by rw [ht])
+        | ok ce => simp only at h; rw [select_len cc ct ce c h]; exact iht ct (by rw [ht])
         | err => simp at h
         | panic => simp at h
       | err => simp at h
